@@ -2,6 +2,7 @@ CONSTANTS Labels = {1, 2}
   MaxIds = 3
   MaxBuffer = 2
   Sem = "CO"
+  StaleCertificate = FALSE
   ReissueRule = "forget_attacked_by_removed"
 SPECIFICATION Spec
 CHECK_DEADLOCK FALSE
